@@ -7,9 +7,13 @@ From Coq Require Import ZArith List Arith Lia.
 From FF Require Import Model.Tensor.
 Import ListNotations.
 
+Section Generic.
+Context {T : Type} {E : Entry T}.
+Local Notation arr := (garr T).
+
 Definition kron2 (A B : arr) : arr :=
   tabulate (map2 Nat.mul (shp A) (shp B))
-    (fun idx => (aget A (map2 Nat.div idx (shp B)) * aget B (map2 Nat.modulo idx (shp B)))%Z).
+    (fun idx => emul (aget A (map2 Nat.div idx (shp B))) (aget B (map2 Nat.modulo idx (shp B)))).
 
 (* left-to-right chain F (x) F_1 (x) .. (x) F_m *)
 Definition kron_chain (F : arr) (Fs : list arr) : arr := fold_left kron2 Fs F.
@@ -26,8 +30,8 @@ Definition axis_dims (a : nat) (Fs : list arr) : list nat := map (fun F => nth a
 (* multi-index into factor k selected by the chain multi-index idx *)
 Definition factor_index (r : nat) (Fs : list arr) (k : nat) (idx : list nat) : list nat :=
   map (fun a => nth k (unravel (axis_dims a Fs) (nth a idx 0)) 0) (seq 0 r).
-Definition zprod (l : list Z) : Z := fold_right Z.mul 1%Z l.
-Definition kron_entry (r : nat) (Fs : list arr) (idx : list nat) : Z :=
+Definition zprod (l : list T) : T := fold_right emul eone l.
+Definition kron_entry (r : nat) (Fs : list arr) (idx : list nat) : T :=
   zprod (map (fun k => aget (nth k Fs (mkArr [] [])) (factor_index r Fs k idx)) (seq 0 (length Fs))).
 
 (* well-formed rank-r tensor without leading axes *)
@@ -41,8 +45,9 @@ Definition kron_ins (P S : list nat) (C ins : arr) : arr :=
        let xs := map2 Nat.div idx (map2 Nat.mul (shp ins) S) in
        let ys := map2 Nat.modulo (map2 Nat.div idx S) (shp ins) in
        let zs := map2 Nat.modulo idx S in
-       (aget ins ys * aget C (map2 Nat.add (map2 Nat.mul xs S) zs))%Z).
+       emul (aget ins ys) (aget C (map2 Nat.add (map2 Nat.mul xs S) zs))).
 
 (* the empty chain: the rank-r tensor with one entry 1 *)
-Definition kunit (r : nat) : arr := mkArr (repeat 1 r) [1%Z].
+Definition kunit (r : nat) : arr := mkArr (repeat 1 r) [eone].
 Definition chain_u (r : nat) (L : list arr) : arr := fold_left kron2 L (kunit r).
+End Generic.
